@@ -37,11 +37,12 @@ type agg struct {
 	crashes       []string
 	infra         []string
 	knownHits     map[string]int64
+	caseClasses   map[string]bool
 }
 
 func newAgg() *agg {
 	return &agg{sigs: map[string]bool{}, inconclusive: map[string]int64{}, fs: map[string]int64{}, faults: map[string]int64{},
-		probes: map[string]int64{}, knownHits: map[string]int64{}}
+		probes: map[string]int64{}, knownHits: map[string]int64{}, caseClasses: map[string]bool{}}
 }
 
 func (a *agg) add(o *Outcome) {
@@ -61,6 +62,9 @@ func (a *agg) add(o *Outcome) {
 	a.preemptions += o.Preemptions
 	a.cases += o.Cases
 	a.dcases += o.DistinctCases
+	for _, c := range o.CaseClasses {
+		a.caseClasses[c] = true
+	}
 	a.gens += int64(o.Gens)
 	a.ops += int64(o.OpsRun)
 	if o.MaxTasks > a.maxTasks {
@@ -162,6 +166,7 @@ func driverMain(args []string) {
 	os.MkdirAll(*replays, 0755)
 	nViol := 0
 	var vsum []map[string]interface{}
+	reportedKnown := map[string]bool{}
 	for _, c := range classes {
 		rfs := byClass[c]
 		sort.Slice(rfs, func(i, j int) bool { return planSize(rfs[i].Plan) < planSize(rfs[j].Plan) })
@@ -178,7 +183,7 @@ func driverMain(args []string) {
 			b, _ := json.MarshalIndent(rf, "", " ")
 			os.WriteFile(raw, b, 0644)
 			final := raw
-			if rf.Violation.Rule != "R-worker-crash" {
+			if rf.Violation.Rule != "R-worker-crash" && matchKnown(rf.Violation, rf.Plan) == "" {
 				cmd := exec.Command(self, "minimise", "-budget", fmt.Sprint(*minBudget), raw, min)
 				cmd.Env = os.Environ()
 				outb, err := runWithTimeout(cmd, time.Duration(*minBudget+30)*time.Second)
@@ -195,8 +200,9 @@ func driverMain(args []string) {
 			}
 			known := matchKnown(rf.Violation, rf.Plan)
 			if known != "" {
-				if !reported[known] {
+				if !reported[known] && !reportedKnown[known] {
 					reported[known] = true
+					reportedKnown[known] = true
 					lines = append(lines, fmt.Sprintf("KNOWN-FINDING: property=%s %s (replay=%s)", *prop, known, final))
 					a.knownHits[known] += int64(len(rfs))
 				} else {
@@ -366,7 +372,7 @@ func writeEvidence(path, prop, tier string, seed uint64, a *agg, exploreWall, wa
 	distinct := a.nontrivial
 	if level == "fault_enumeration" && a.cases > 0 {
 		evals = a.cases
-		distinct = a.dcases
+		distinct = int64(len(a.caseClasses))
 	}
 	hours := exploreWall / 3600
 	if hours <= 0 {
